@@ -168,7 +168,7 @@ pub fn decode(bytes: &[u8]) -> Case {
     // only valid UTF-8 items (the typed word must be; earlier ones are kept simple too)
     for it in sentence.iter_mut() {
         if std::str::from_utf8(it).is_err() {
-            *it = String::from_utf8_lossy(it).replace('\u{fffd}', "").into_bytes();
+            *it = crate::un::drop_invalid_utf8(it);
         }
     }
     let k = u.below(sentence.len() + 1);
@@ -660,6 +660,70 @@ pub fn check_case(case: &Case, ctx: &mut Ctx) -> Verdict {
                     );
                 }
                 ctx.class("completeness-checked");
+            }
+        }
+    }
+    // completeness for a freshly typed command prefix: the active level takes no positional, the
+    // commands are a field of their own (alone, or a choice between commands only), none of them
+    // has been entered (the active level is the innermost one) and the previous item is not an
+    // argument name waiting for its value
+    if case.clean_prefix && !typed.starts_with('-') && !via_hidden_command && !dangling {
+        let level = *active.last().unwrap();
+        let vis = things(level);
+        let has_pos = vis.iter().any(|v| matches!(v.thing, Thing::Pos(_)));
+        fn strip(n: &Node) -> &Node {
+            let mut cur = n;
+            loop {
+                match cur {
+                    Node::Optional { n, .. }
+                    | Node::Fallback { n, .. }
+                    | Node::FallbackWith { n, .. }
+                    | Node::Map(n)
+                    | Node::Boxed(n)
+                    | Node::Hide(n)
+                    | Node::HideUsage(n)
+                    | Node::CustomUsage(n, _)
+                    | Node::GroupHelp(n, _)
+                    | Node::WithGroupHelp(n, _) => cur = n,
+                    _ => break cur,
+                }
+            }
+        }
+        let direct_fields: Vec<&Node> = match &level.body {
+            Node::Seq(xs) => xs.iter().collect(),
+            other => vec![other],
+        };
+        let mut own_cmds: Vec<&CmdSpec> = Vec::new();
+        for f in direct_fields {
+            match strip(f) {
+                Node::Cmd(c) => own_cmds.push(c),
+                Node::Alt(bs) if bs.iter().all(|b| matches!(strip(b), Node::Cmd(_))) => {
+                    for b in bs {
+                        if let Node::Cmd(c) = strip(b) {
+                            own_cmds.push(c);
+                        }
+                    }
+                }
+                _ => {}
+            }
+        }
+        if !has_pos {
+            for c in own_cmds {
+                let v = vis.iter().find(|v| matches!(v.thing, Thing::Cmd(x) if std::ptr::eq(x, c)));
+                let visible = v.map_or(false, |v| !v.hidden && !v.in_adjacent && !v.grouped);
+                if !visible || c.adjacent || !c.name.starts_with(typed) {
+                    continue;
+                }
+                if !parsed.rows.iter().any(|r| r.0 == c.name) {
+                    return fail(
+                        "applicable-command-not-offered",
+                        format!(
+                            "command {:?} extends {:?}, is visible, no command entered at this level, but is not offered",
+                            c.name, typed
+                        ),
+                    );
+                }
+                ctx.class("command-completeness-checked");
             }
         }
     }
